@@ -91,6 +91,42 @@ CLAIMED = {
         "Trusted: the 40-line reference LRU; verif hooks read the cache under its own lock. Has is only issued where recency cannot matter (sequential) or modelled as may-or-may-not refresh (concurrent).",
         "DESIGN.md section 4 C14, section 5.3",
     ),
+    "C15": (
+        "runtime monitoring: round-trip monitor - BuildURL -> String() -> server-style parse -> Match/ServeHTTP on the same router, params and query compared with the supplied arguments; GetRoute checked against a model of 'most recently registered under the name' over sequences of naming-API calls",
+        "For named routes (static / 1..3 variables, 5 regex classes, literal affixes) registered through all four naming APIs incl. re-registrations and re-namings, and hostile value pools (blanks, non-ASCII, %, %2F, ?, #, +, &, placeholder look-alikes), every built URL is routed back to the same route with exactly the supplied values in all three argument styles (each built repeatedly: map order is input), extras appear exactly as query parameters.",
+        "Trusted: net/url as the server-side parser. Values that would put white space / '/' at the very end of the path are excluded (normalisation removes them by design).",
+        "DESIGN.md section 4 C15",
+    ),
+    "C16": (
+        "runtime monitoring: exhaustive configuration sweep with a reference-table monitor - all 256 generated controller types registered on fresh routers, registered triples / named routes / answers to a full probe matrix compared with the documented REST table filtered by the implemented subset",
+        "All 128 action subsets x with/without Uses() x 3 base paths x inside/outside groups (incl. middleware slices with spare capacity), repeated (map iteration order inside Resource varies): registered (method, path, name) triples equal the documented table, every probe of 9 methods x 9 paths is answered by the expected action / 405 with the exact Allow set / 404, Uses() middleware runs only for its action, /res/create is never served by show when create exists, non-pointer / non-struct controllers are rejected.",
+        "Trusted: the seven-row table in harness/mon/c16.go and the C06 resolution model. Non-strict mode; base paths end in '/'.",
+        "DESIGN.md section 4 C16",
+    ),
+    "C17": (
+        "runtime monitoring: negative-oracle (canary) monitor over hostile request paths against real file trees - every outside file carries a canary token, every 200 body must equal a file under the root byte for byte; extension-filter oracle for StaticFiles",
+        "StaticDir / StaticFiles / StaticFS / StaticFile under two prefixes, with/without UseEncodedPath and StrictLastSlash, driven with a grammar of hostile paths (dot-dot raw/encoded/double-encoded, back-slashes, NUL, absolute paths, over-long chains, outside names, near-miss extensions) both as raw URL.Path and as parsed request targets: no canary and no outside name in any response, served bytes are root files, StaticFiles only answers paths ending in an allowed extension, StaticFile only its file, no panic.",
+        "Trusted: the sandbox tree written by the monitor itself under work/. Symlinks are out of scope.",
+        "DESIGN.md section 4 C17",
+    ),
+    "C18": (
+        "runtime monitoring: decision-table monitor (query and body carry different data, so the bound value reveals the source), round-trip monitor with independent encoders, fuzzed malformed bodies (recover-observed), recording validator hook",
+        "All 9 methods x 16 content types x 4 entry points agree with the documented source selection (incl. a key present only in the query must not reach a body bind); struct values round-trip through form, multipart, JSON, XML and query via Auto/Bind/ShouldBind/BindX; thousands of malformed bodies yield error-or-success and never a panic, documents an independent decoder refuses are not reported as success; a successful bind implies the validator ran on the bound object and accepted it, a disabled validator is never called.",
+        "Trusted: encoding/json, encoding/xml, mime/multipart, net/url as independent encoders/decoders. Single-threaded (package-global validator). Every bind uses a fresh request.",
+        "DESIGN.md section 4 C18",
+    ),
+    "C19": (
+        "runtime monitoring: per-helper output oracle over generated values incl. unencodable ones - status/Content-Type read from the recording writer at commit time, bodies decoded by independent decoders and compared with the input; negotiation model for render.Auto; short call histories so that failures precede successes",
+        "12 Context helpers and 11 pkg/render entry points x 16 statuses x strings/maps/structs/bytes/unencodable values x preset or absent Content-Type x generated Accept lists: status as given (200 for <= 0), documented or preserved Content-Type, body decodes to the value (JSONP unwrapped), Auto picks the first supported type, encoding failures surface in c.Errors or the returned error, never a panic; Stream with readers with/without WriteTo, one-byte reads and failures.",
+        "Trusted: encoding/json and encoding/xml as decoders; the documented Content-Type constants. text/html is never generated in front of a supported Accept type.",
+        "DESIGN.md section 4 C19",
+    ),
+    "C20": (
+        "runtime monitoring: gate oracles by construction - Authorization headers generated by class with known verdicts, method-override value/carrier matrix, wrapper lists (same slice re-wrapped, sub-slices) and wrapped http.Handlers at random chain positions, all observed through enter/leave events and the recording writer",
+        "HTTPBasicAuth as route/group/global middleware over account maps incl. nil/empty/empty passwords/':' in passwords: downstream ran iff well-formed and (no accounts or password equal), else 401+challenge or 403 and no downstream event; HTTPMethodOverrideHandler rewrites only POST to PUT/PATCH/DELETE (any letter case, form field before header, body or query) and records the original method exactly then; WrapHTTPHandlers keeps the first listed wrapper outermost across repeated calls on the same slice; WrapHTTPHandler* handlers run once at their position and the chain continues.",
+        "Trusted: Go's Request.BasicAuth as the definition of well-formed Basic credentials; user names without ':'.",
+        "DESIGN.md section 4 C20",
+    ),
 }
 
 PENDING_REASON = "monitor designed in DESIGN.md section 4 but not built yet in this round; not claimed until its check exists and is silent on the unchanged tree"
